@@ -1,5 +1,5 @@
 """C16 — every connection accounted exactly once with a truthful record (sequential lifecycle part)."""
-from specs import dispatch, lifecycle, timeouts
+from specs import dispatch, lifecycle, timeouts, relay, accesslog
 
 
 def run(ck):
@@ -7,8 +7,8 @@ def run(ck):
         return
     import contracts_async  # noqa
     ck.assumptions += ['every await completes; one connection at a time', 'AtomicU64::fetch_add returns distinct values to concurrent callers (contract)']
-    ck.out_of_scope += ['byte counters vs bytes actually relayed (inside copy_half\'s select!)', 'live listing / exactly-once logging under concurrency (gc_thread is a spawned task)',
-                        'log rotation', 'access-log writes of the gc task']
+    ck.out_of_scope += ['byte counters in the splice and frame arms of copy_half', 'live listing / exactly-once logging under concurrency (gc_thread is a spawned task)',
+                        'the channel between the gc task and the access-log writer (tokio mpsc)']
     dispatch.spec_process_request(ck)
     lifecycle.spec_ref_ops(ck)
     lifecycle.spec_set_state(ck)
@@ -17,4 +17,8 @@ def run(ck):
     timeouts.spec_create_context(ck)
     timeouts.spec_incr(ck, 'incr_sent_bytes')
     timeouts.spec_incr(ck, 'incr_sent_frames')
+    ck.plans.append(relay.relay_replay_plan)
+    relay.check_copy_half(ck, max_turns=2)
+    ck.plans.append(accesslog.replay_plan)
+    accesslog.spec_log_thread(ck, nevents=3 if ck.tier == 'quick' else 4)
     ck.post_filter = lambda o: o.label.startswith('C16/') or o.status in ('undecided', 'vacuous', 'inconclusive')
